@@ -47,7 +47,14 @@ Spec == Init /\ [][Next]_vars
 
 Prog == Program(ents)
 Check == (Len(ents) >= 3 /\ CompIdx(Prog) # {}) =>
-   LET nl == Netlist(Prog) IN
+   LET nl == Netlist(Prog)
+       ref == RefClass(Prog)
+       net == DrawNet(Prog, R0, Q(1, 1000))
+       sl == IF ref \in Used(net) THEN SolveOpt(net, ref) ELSE <<>>
+   IN
    PrintT(<<"CASE", ToJson([ents |-> ents, prog |-> Prog, netlist |-> nl, gnd |-> IF HasGnd(Prog) THEN GndClass(Prog) ELSE -1,
-          ref |-> RefClass(Prog), labels |-> Labels(Prog), dc |-> [ok |-> FALSE]])>>)
+          ref |-> RefClass(Prog), labels |-> Labels(Prog),
+          dc |-> IF sl = <<>> THEN [ok |-> FALSE] ELSE [ok |-> TRUE, phi |-> [n \in Used(net) |-> Phi(net, ref, sl, n)],
+                    u |-> [j \in DOMAIN net |-> U(net, ref, sl, j)], i |-> [j \in DOMAIN net |-> IRep(net, ref, sl, j)]],
+          ac |-> [ok |-> FALSE]])>>)
 =============================================================================
